@@ -106,7 +106,7 @@ func c03Opts(cs *h.Case) conv.Options {
 
 func runC03(c *h.Ctx) {
 	c.Run("messages", c.N(8000, 300000), func(cs *h.Case) {
-		sc := gen.GenSchema(cs.R, gen.Cfg{MaxDepth: 3, MaxFields: 6, BigIDs: true, Recursive: true, Aliases: true, Requiredness: cs.R.Bool()})
+		sc := gen.GenSchema(cs.R, gen.Cfg{MaxDepth: 3, MaxFields: 6, BigIDs: true, Recursive: true, Aliases: true, Requiredness: cs.R.Bool(), Typedefs: true})
 		root := structType(sc.Root)
 		cs.Info("idl", sc.IDL())
 		desc, _, err := ParseRoot(sc, thrift.NewDefaultOptions())
